@@ -12,15 +12,16 @@ ASSUMPTIONS = [
     "DECIDED: (a) the rate a Bloom filter stores is the binary32 narrowing of the request and a fixed point of that narrowing, and re-deriving the geometry from (est, stored rate) - what every reload does - returns the same (rate, hashes, bits), for EVERY binary64 rate the constructor accepts (est 1 and 10; ln uninterpreted, i.e. any pure function)",
     "DECIDED: (d) count-min width = ceil(2/e) gives 2/width <= e as Python evaluates it, for all binary64 e in the stated binades, EXCEPT the class where the rounded quotient 2/e is itself an integer (known finding F10: there the check 2/width <= e fails by one ulp)",
     "DECIDED: (f) bloom_length = ceil(number_bits / 8.0) equals (m + 7) div 8 and export_size = bloom_length + 20 for every m < 2^32; counting Bloom 4*m + 20",
-    "NOT DECIDED (out of reach, DESIGN section 8): the 7% false-positive allowance, number_hashes >= 1 and 'executed formula = documented formula' for symbolic est (binary64 divide/round over two symbolic operands: unknown after 120 s), 1 - 2^-depth >= confidence and the cuckoo bound (need the values of ln / log2)",
+    "DECIDED structurally (g): for est in {1, 10, 1000} and every accepted rate the executed Bloom sizing equals the documented m = ceil(-n ln p32 / ln^2 2), k = round(ln 2 m / n); the executed count-min depth equals ceil(-ln(1-c)/ln 2); the executed cuckoo fingerprint width equals ceil(log2(1/e) + log2(b) + 1) for bucket sizes 1,2,3,4,5,7 - with ln / log2 UNINTERPRETED (equality for every interpretation). A counterexample is only reported if, replayed with the real math functions, the accuracy clause itself fails (k >= 1 and theoretical rate <= 1.07 p; 1 - 2^-depth >= c; 2b/2^bits <= e); otherwise the model is blocked and the search continues (8 tries, then inconclusive)",
+    "NOT DECIDED (out of reach, DESIGN section 8): that the documented formulas THEMSELVES meet the accuracy clauses for every request (needs the values of ln / log2 / exp: only evaluated at replayed models), and symbolic est_elements (binary64 divide/round over two symbolic operands: unknown after 120 s)",
 ]
 BOUNDS = {
-    "quick": "(a) all binary64 rates, est in {1, 10}, path cut at the call of ln (the value reaching ln is the obligation); (d) e in [2^-4, 1) by binade for the unsat half + the sat search for the F10 class on (1.5e-5, 1.6e-5); (f) all m < 2^32",
+    "quick": "(a) all binary64 rates, est in {1, 10}, path cut at the call of ln (the value reaching ln is the obligation); (d) e in [2^-4, 1) by binade for the unsat half + the sat search for the F10 class on (1.52513e-5, 1.52514e-5); (f) all m < 2^32",
     "thorough": "(d) binades down to 2^-7 (10 min cap per binade), F10 class searched on (1e-6, 1)",
     "outside": "e < 2^-4 (2^-7) for the unsat half of (d); every clause listed as NOT DECIDED",
 }
 EXPECT_LABELS = {"quick": ["rate-is-float32-fixed-point", "reload-same-geometry", "cms-width-honours-error-rate", "bloom-length-is-ceil-bits/8",
-                           "export-size"]}
+                           "export-size", "bloom-size-is-documented-formula", "cms-depth-is-documented-formula", "cuckoo-bits-is-documented-formula"]}
 
 
 def _install_bloom(ctx):
@@ -153,19 +154,157 @@ def lengths(ctx, cfg):
                   c.bloom_length == c.number_bits, "export-size")
 
 
-HARNESS = {"c07.narrowing": narrowing, "c07.cms_width": cms_width, "c07.lengths": lengths}
+# ---- formula-structure clauses: executed sizing formula == documented formula over uninterpreted ln / log2 ------------------
+def _bloom_oracle(est, p):
+    """the property's Bloom clause evaluated with the real math functions at a concrete accepted request"""
+    import math
+    import struct
+    from probables import BloomFilter
+    from probables.exceptions import InitializationError
+    try:
+        t, k, m = BloomFilter._get_optimized_params(est, p)
+    except (InitializationError, ValueError, OverflowError, ZeroDivisionError):
+        return False        # not an accepted request
+    p32 = struct.unpack("f", struct.pack("f", p))[0]
+    if p32 <= 0.0 or p32 >= 1.0:
+        return False
+    want_m = math.ceil(-est * math.log(p32) / (math.log(2) ** 2))
+    want_k = round(math.log(2) * want_m / est)
+    if t != p32 or abs(m - want_m) > 1 or k < 1 or abs(k - want_k) > 1:
+        return True
+    fp_rate = (1 - math.exp(-k * est / m)) ** k
+    return fp_rate > 1.07 * p32 * (1 + 1e-9)
+
+
+def bloom_formula(ctx, cfg):
+    from probables import BloomFilter
+    from probables.exceptions import InitializationError
+    est = cfg["est"]
+    if not ctx.sym:
+        ctx.check(not _bloom_oracle(est, ctx.fp("p")), "bloom-size-is-documented-formula")
+        return
+    import z3
+    from .. import fp
+    from ..fpstats import uf_check
+    install = lambda: _install_bloom(ctx)  # noqa: E731
+    install()
+    p = ctx.fp("p")
+    ctx.assume(z3.And(z3.fpGT(p.t, z3.FPVal(1e-30, fp.D)), z3.fpLT(p.t, z3.FPVal(1.0, fp.D))))
+    try:
+        t, k, m = BloomFilter._get_optimized_params(est, p)
+    except InitializationError:
+        ctx.reach("rejected")
+        return
+    D, RNE = fp.D, fp.RNE
+    n = z3.fpSignedToFP(RNE, z3.BitVecVal(est, 64), D)
+    t32 = z3.fpToFP(RNE, z3.fpToFP(RNE, p.t, fp.F32), D)
+    # documented: m = ceil(-n ln p32 / ln^2 2), k = round(ln 2 * m / n)   (ln^2 2 and ln 2 as the published constants)
+    m_ref = z3.fpToSBV(z3.RTP(), z3.fpDiv(RNE, z3.fpMul(RNE, z3.fpNeg(n), fp.LOG(t32)), z3.FPVal(0.4804530139182, D)), z3.BitVecSort(64))
+    k_ref = z3.fpToSBV(RNE, z3.fpRoundToIntegral(RNE, z3.fpDiv(RNE, z3.fpMul(RNE, z3.FPVal(0.6931471805599453, D), z3.fpSignedToFP(RNE, m_ref, D)), n)),
+                       z3.BitVecSort(64))
+    uf_check(ctx, z3.And(m.t == m_ref, k.t == k_ref, z3.fpEQ(t.t, t32)), "bloom-size-is-documented-formula", {"p": p.t},
+             lambda v: _bloom_oracle(est, v["p"]), install)
+
+
+def _depth_oracle(c):
+    from probables import CountMinSketch
+    if not 0.0 < c < 1.0:
+        return False
+    s = CountMinSketch(confidence=c, error_rate=0.5)
+    return s.depth < 1 or 1 - 2.0 ** -s.depth < c * (1 - 1e-12)
+
+
+def cms_depth(ctx, cfg):
+    from probables import CountMinSketch
+    if not ctx.sym:
+        ctx.check(not _depth_oracle(ctx.fp("c")), "cms-depth-is-documented-formula")
+        return
+    import z3
+    from .. import fp
+    from ..fpstats import uf_check
+    cm = env.mod("cms")
+
+    class _Arr:
+        def __init__(self, *a):
+            pass
+
+        def __mul__(self, n):
+            return self
+
+    def install():
+        ctx.patch(cm, "math", fp.MathUF())
+        ctx.patch(cm, "array", _Arr)
+    install()
+    c = ctx.fp("c")
+    ctx.assume(z3.And(z3.fpGT(c.t, z3.FPVal(1e-9, fp.D)), z3.fpLT(c.t, z3.FPVal(0.999999, fp.D))))
+    s = CountMinSketch(confidence=c, error_rate=0.5)
+    D, RNE = fp.D, fp.RNE
+    # documented: depth = ceil(-ln(1 - c) / ln 2)
+    ref = z3.fpToSBV(z3.RTP(), z3.fpDiv(RNE, z3.fpMul(RNE, z3.FPVal(-1.0, D), fp.LOG(z3.fpSub(RNE, z3.FPVal(1.0, D), c.t))), z3.FPVal(0.6931471805599453, D)),
+                     z3.BitVecSort(64))
+    d = s.depth
+    uf_check(ctx, (d.t if isinstance(d, fp.SI) else z3.BitVecVal(int(d), 64)) == ref, "cms-depth-is-documented-formula", {"c": c.t},
+             lambda v: _depth_oracle(v["c"]), install)
+
+
+def _finger_oracle(b, e):
+    from probables import CuckooFilter
+    if not 2.0 ** -24 < e < 0.5:
+        return False
+    f = CuckooFilter.init_error_rate(e, capacity=4, bucket_size=b)
+    bits = f.fingerprint_size_bits
+    return bits < 1 or 2 * b / 2.0 ** bits > e * (1 + 1e-12)
+
+
+def cuckoo_bits(ctx, cfg):
+    from probables import CuckooFilter
+    b = cfg["bucket"]
+    if not ctx.sym:
+        ctx.check(not _finger_oracle(b, ctx.fp("e")), "cuckoo-bits-is-documented-formula")
+        return
+    import math
+    import z3
+    from .. import fp
+    from ..fpstats import uf_check
+    ck = env.mod("cuckoo")
+
+    def install():
+        ctx.patch(ck, "math", fp.MathUF())
+        ctx.patch(ck, "int", fp.IntShim)
+    install()
+    e = ctx.fp("e")
+    ctx.assume(z3.And(z3.fpGT(e.t, z3.FPVal(2.0 ** -24, fp.D)), z3.fpLT(e.t, z3.FPVal(0.5, fp.D))))
+    f = CuckooFilter(capacity=4, bucket_size=b)
+    f._set_error_rate(e)
+    D, RNE = fp.D, fp.RNE
+    # documented: bits = ceil(log2(1/e) + log2(bucket_size) + 1)
+    ref = z3.fpToSBV(z3.RTP(), z3.fpAdd(RNE, z3.fpAdd(RNE, fp.LOG2(z3.fpDiv(RNE, z3.FPVal(1.0, D), e.t)), z3.FPVal(math.log2(b), D)), z3.FPVal(1.0, D)),
+                     z3.BitVecSort(64))
+    bits = f.fingerprint_size_bits
+    uf_check(ctx, (bits.t if isinstance(bits, fp.SI) else z3.BitVecVal(int(bits), 64)) == ref, "cuckoo-bits-is-documented-formula", {"e": e.t},
+             lambda v: _finger_oracle(b, v["e"]), install)
+
+
+HARNESS = {"c07.narrowing": narrowing, "c07.cms_width": cms_width, "c07.lengths": lengths, "c07.bloom_formula": bloom_formula,
+           "c07.cms_depth": cms_depth, "c07.cuckoo_bits": cuckoo_bits}
 
 
 def jobs(tier):
     js = [{"h": "c07.lengths", "cfg": {}, "opts": {"timeout_ms": 300000, "witnesses": 1}}]
     for est in (1, 10):
         js.append({"h": "c07.narrowing", "cfg": {"est": est}, "opts": {"timeout_ms": 300000, "retry_ms": 0, "witnesses": 1, "cost": 50}})
+    lazy = {"timeout_ms": 120000, "retry_ms": 0, "no_witness": True, "assume_feasible": True, "cost": 5}
+    for est in (1, 10, 1000):
+        js.append({"h": "c07.bloom_formula", "cfg": {"est": est}, "opts": lazy})
+    js.append({"h": "c07.cms_depth", "cfg": {}, "opts": lazy})
+    for b in (1, 2, 3, 4, 5, 7):
+        js.append({"h": "c07.cuckoo_bits", "cfg": {"bucket": b}, "opts": lazy})
     maxj = 4 if tier == "quick" else 7
     for j in range(1, maxj + 1):
         js.append({"h": "c07.cms_width", "cfg": {"lo": 2.0 ** -j, "hi": 2.0 ** -(j - 1), "half": "non-integral"},
                    "opts": {"timeout_ms": 600000, "retry_ms": 0, "witnesses": 1, "cost": 100 * j, "max_seconds": 3000}})
     # the sat search that (re)finds F10: e anywhere in (1e-6, 1) with an integral rounded quotient
-    lo, hi = (1.5e-05, 1.6e-05) if tier == "quick" else (1e-6, 1.0)
+    lo, hi = (1.52513e-05, 1.52514e-05) if tier == "quick" else (1e-6, 1.0)
     js.append({"h": "c07.cms_width", "cfg": {"lo": lo, "hi": hi, "half": "integral"},
                "opts": {"timeout_ms": 600000, "retry_ms": 0, "witnesses": 0, "cost": 1000, "max_seconds": 3000}})
     return js
